@@ -20,6 +20,14 @@ def _calls(fn: ast.AST, method: str, on: str | None = None) -> List[ast.Call]:
     return out
 
 
+def _stmts(fn: ast.AST) -> List[ast.stmt]:
+    """The statements of a function body without a docstring (T.parse already removes it; VERIF_T1_RAW=1 does not)."""
+    body = list(fn.body)
+    if body and isinstance(body[0], ast.Expr) and isinstance(body[0].value, ast.Constant) and isinstance(body[0].value.value, str):
+        body = body[1:]
+    return body
+
+
 def _one_lit(calls: List[ast.Call], what: str) -> Any:
     vals = []
     for c in calls:
@@ -79,14 +87,17 @@ def loader_consts() -> dict:
             [T.literal(k.value) for k in acc_calls[0][1].keywords if k.arg == "accumulated"] != [True]:
         raise TranslateError("accumulated=True is not passed by (only) _parse_multi_line")
     sig = single.args
-    if [a.arg for a in sig.args][-1] != "accumulated" or T.literal(sig.defaults[-1]) is not False:
+    names = [a.arg for a in sig.args]
+    defaults = dict(zip(names[len(names) - len(sig.defaults):], sig.defaults))     # parameters are read by name
+    if "accumulated" not in defaults or T.literal(defaults["accumulated"]) is not False:
         raise TranslateError("_parse_single_line(..., accumulated=False) signature not recognised")
     # the location test shared by both layouts
     loc = T.func(mod, "_is_location")
     out["sol_url_prefixes"] = _strs(_one_lit(_calls(loc, "startswith", "text"), "location prefixes"), "url prefixes")
     out["sol_url_suffixes"] = _strs(_one_lit(_calls(loc, "endswith", "text"), "location suffixes"), "url suffixes")
-    if not (len(loc.body) == 2 and isinstance(loc.body[1], ast.Return) and isinstance(loc.body[1].value, ast.BoolOp)
-            and isinstance(loc.body[1].value.op, ast.Or) and len(loc.body[1].value.values) == 2):
+    loc_body = _stmts(loc)
+    if not (len(loc_body) == 1 and isinstance(loc_body[0], ast.Return) and isinstance(loc_body[0].value, ast.BoolOp)
+            and isinstance(loc_body[0].value.op, ast.Or) and len(loc_body[0].value.values) == 2):
         raise TranslateError("_is_location is not `return text.startswith(..) or text.endswith(..)`")
     loc_calls = [ast.unparse(c.args[0]) for c in _calls(single, "_is_location") ] if False else \
         [ast.unparse(n.args[0]) for n in ast.walk(single) if isinstance(n, ast.Call) and isinstance(n.func, ast.Name) and n.func.id == "_is_location"]
@@ -132,7 +143,10 @@ def loader_consts() -> dict:
     # placeholders are told by their origin, not by a version value
     if any(isinstance(n, ast.Call) and isinstance(n.func, ast.Attribute) and n.func.attr == "parse_version" for n in ast.walk(rem)):
         raise TranslateError("_remove_nodes still compares a version value")
-    tests_rem = [ast.unparse(n.test) for n in ast.walk(rem) if isinstance(n, ast.If)]
+    # the test may sit in an `if` statement or in the filter of a comprehension over self.solution
+    tests_rem = [ast.unparse(n.test) for n in ast.walk(rem) if isinstance(n, ast.If)] + \
+                [ast.unparse(c) for n in ast.walk(rem) if isinstance(n, ast.comprehension) and ast.unparse(n.iter) == "self.solution"
+                 for c in n.ifs]
     if tests_rem != ["node.metadata is None or node.metadata.origin is not self"]:
         raise TranslateError(f"_remove_nodes test not recognised: {tests_rem}")
     origin_self = [n for n in ast.walk(adds) if isinstance(n, ast.Assign) and ast.unparse(n.targets[0]) == "metadata.origin"
@@ -151,7 +165,11 @@ def loader_consts() -> dict:
     out["l_pin_before_requirers"] = ("bool", pin_calls[0] < loops[0])
     # a pin without a recorded location carries no link at all (the writer prints candidate.link[1])
     cands = [n for n in ast.walk(adds) if isinstance(n, ast.Call) and isinstance(n.func, ast.Name) and n.func.id == "Candidate"]
-    if len(cands) != 1 or len(cands[0].args) < 7 or ast.unparse(cands[0].args[6]) != "(None, url) if url else None":
+    link_arg = None
+    if len(cands) == 1:
+        kws = [k.value for k in cands[0].keywords if k.arg == "link"]
+        link_arg = kws[0] if kws else (cands[0].args[6] if len(cands[0].args) > 6 else None)   # 7th parameter of Candidate.__init__
+    if link_arg is None or ast.unparse(link_arg) != "(None, url) if url else None":
         raise TranslateError("_add_sources: Candidate(..., link=(None, url) if url else None, ...) not recognised")
     kw = [ast.unparse(k.value) for c in _calls(single, "_add_sources") for k in c.keywords if k.arg == "url"]
     if kw != ["url if url else None"]:
